@@ -40,14 +40,27 @@ pub mod emap {
 
         #[verifier::external_body]
         pub fn get(&self, k: usize) -> (r: Option<&V>)
+//#ifnot guard
             requires k < self.view().len(),
-            ensures r == (match self.view()[k as int] { Some(v) => Some(&v), None => None::<&V> }),
+//#endif
+            ensures
+//#if guard
+                // guard mode (C07): with debug assertions the call panics unless the key is in range, i.e.
+                // "returned normally => k < capacity" (audited against the real crate: kani/deps)
+                k < self.view().len(),
+//#endif
+                r == (match self.view()[k as int] { Some(v) => Some(&v), None => None::<&V> }),
         { unimplemented!() }
 
         #[verifier::external_body]
         pub fn get_mut(&mut self, k: usize) -> (r: Option<&mut V>)
+//#ifnot guard
             requires k < old(self).view().len(),
+//#endif
             ensures
+//#if guard
+                k < old(self).view().len(),
+//#endif
                 match r {
                     Some(m) => old(self).view()[k as int] == Some(*m)
                         && final(self).view() == old(self).view().update(k as int, Some(*final(m))),
@@ -69,8 +82,14 @@ pub mod emap {
 
         #[verifier::external_body]
         pub fn insert(&mut self, k: usize, v: V)
+//#ifnot guard
             requires k < old(self).view().len(),
-            ensures final(self).view() == old(self).view().update(k as int, Some(v)),
+//#endif
+            ensures
+//#if guard
+                k < old(self).view().len(),
+//#endif
+                final(self).view() == old(self).view().update(k as int, Some(v)),
         { unimplemented!() }
 
         #[verifier::external_body]
